@@ -322,7 +322,10 @@ class TreeSim(WorldBase):
             if not h["alive"] or h["slot"] not in targets:
                 continue
             sl = self.slots.get(h["slot"])
-            cur = ob.find_payload(sl.root, h["point"]) if sl is not None else None
+            if sl is not None and h["point"] == ():
+                cur = sl.root
+            else:
+                cur = ob.find_payload(sl.root, h["point"]) if sl is not None else None
             if cur is not h["box"]:
                 if culprit in ("ref", "posref", "hw") and self.prop == "C03":
                     self.V("C03", "C03.handle-alias", culprit,
@@ -373,6 +376,12 @@ class TreeSim(WorldBase):
             t = Tensor.fromRandom(ids, shape, a["density"], a.get("interval", 9), seed=a["seed"])
         elif route == "pop":
             t = Tensor.makePopulated(ids, shape, initial=a.get("initial", 1), default=0)
+            default = 0
+        elif route == "rank0":
+            t = Tensor(rank_ids=[], name="r0")
+            r = t.getPayloadRef()
+            r <<= a.get("initial", 0)
+            shape = []
             default = 0
         elif route == "dcopy":
             src = self.slot(a["src"])
@@ -523,7 +532,7 @@ class TreeSim(WorldBase):
         sl = self.slot(s)
         self.need_unfrozen(s)
         # the handle must still be the stored payload (otherwise it is stale, never written through)
-        if ob.find_payload(sl.root, h["point"]) is not h["box"]:
+        if (sl.root if h["point"] == () else ob.find_payload(sl.root, h["point"])) is not h["box"]:
             h["alive"] = False
             raise Skip("stale")
         targets.add(s)
@@ -652,6 +661,49 @@ class TreeSim(WorldBase):
                 self.V("C03", "C03.position", "getpos",
                        f"getPosition({c}, {kw}) returned {idx!r}, coords={f.coords!r}")
         return {"judged": True}
+
+    def op_r0(self, a, targets):
+        """point access on a rank-0 tensor: the empty point"""
+        s = a["slot"]
+        sl = self.slot(s)
+        if sl.free or sl.depth != 0:
+            raise Skip("not rank-0")
+        t = sl.t
+        act = a["act"]
+        cur = sl.model.get((), sl.default)
+        try:
+            if act == "get":
+                got = t.getPayload()
+                gv = got.value if isinstance(got, Payload) else got
+                if self.prop == "C03" and gv != cur:
+                    self.V("C03", "C03.read-value", "r0", f"rank-0 getPayload() returned {got!r}, expected {cur!r}")
+                return {"judged": True}
+            box = t.getPayloadRef()
+        except Exception as e:
+            return self.unexpected("C03", "r0", e, s)
+        targets.add(s)
+        if self.prop == "C03":
+            if box is not t._root or not isinstance(box, Payload):
+                self.V("C03", "C03.ref-aliases", "r0", "rank-0 getPayloadRef() did not return the stored payload")
+            elif box.value != cur:
+                self.V("C03", "C03.ref-value", "r0", f"rank-0 handle shows {box.value!r}, model says {cur!r}")
+        res = self._write(sl, (), box, a.get("wact", "none"), a.get("v"))
+        if a.get("keep") and isinstance(box, Payload):
+            self.handles.append({"slot": s, "point": (), "box": box, "alive": True, "born": self.cur_index})
+        res["judged"] = True
+        return res
+
+    def gen_r0(self, g):
+        s = self.pick_slot(g, rank0=True)
+        if s is None:
+            return None
+        r = g.random()
+        if r < 0.4:
+            return ["op", "r0", {"slot": s, "act": "get"}]
+        act, v = self._leaf_action(g)
+        if v == "DEFAULT":
+            v = 0
+        return ["op", "r0", {"slot": s, "act": "ref", "wact": act, "v": v, "keep": g.random() < 0.3}]
 
     def unexpected(self, prop, culprit, e, s=None):
         """an exception escaped a call that the property's family says must work"""
@@ -1282,9 +1334,10 @@ class TreeSim(WorldBase):
             return None
         return tuple(pt)
 
-    def pick_slot(self, g, unfrozen=True, nonfree=True):
+    def pick_slot(self, g, unfrozen=True, nonfree=True, rank0=False):
         cands = [s for s, sl in self.slots.items()
-                 if (not unfrozen or not self.frozen(s)) and (not nonfree or not sl.free)]
+                 if (not unfrozen or not self.frozen(s)) and (not nonfree or not sl.free)
+                 and ((sl.depth == 0) == rank0)]
         if not cands:
             return None
         return cands[g.randrange(len(cands))]
@@ -1331,6 +1384,8 @@ class TreeSim(WorldBase):
         if not initial or s > 0:
             routes += ["dcopy", "yaml", "setroot"]
         route = g.choice(routes)
+        if self.prop in ("C03", "C10", "C02") and s > 0 and g.random() < 0.08:
+            return {"slot": s, "route": "rank0", "depth": 0, "shape": [], "default": 0, "initial": g.choice([0, self.nextval()])}
         a = {"slot": s, "route": route, "depth": depth, "shape": shape, "default": cfg["leaf_default"]}
         if route in ("rand", "pop", "yaml"):
             a["default"] = 0
@@ -1347,7 +1402,8 @@ class TreeSim(WorldBase):
         elif route == "pop":
             a["initial"] = g.choice([1, 2, 0])
         elif route in ("dcopy", "yaml", "setroot"):
-            others = [x for x in self.slots if x != s and not self.slots[x].free]
+            others = [x for x in self.slots if x != s and not self.slots[x].free
+                      and (self.slots[x].depth > 0 or route != "setroot")]
             if not others:
                 a["route"] = "fib"
                 a["spec"] = self.gen_spec(g, shape, 0, cfg["explicit"])
@@ -1806,11 +1862,11 @@ ALLMUT = {"ref": 6, "hw": 3, "posref": 2, "append": 2, "extend": 1, "setitem": 3
 BASE_WEIGHTS = {
     "C01": dict(ALLMUT, get=1, rotrav=0.5, vr=1.5, ro=0.5),
     "C02": dict(ALLMUT, get=2, getpos=0.5, rotrav=1.5, vr=2.5, ro=3),
-    "C03": {"ref": 8, "hw": 5, "posref": 3, "get": 8, "getpos": 3, "append": 0.5, "setitem": 0.7, "clear": 0.3,
+    "C03": {"r0": 2, "ref": 8, "hw": 5, "posref": 3, "get": 8, "getpos": 3, "append": 0.5, "setitem": 0.7, "clear": 0.3,
             "populate": 0.7, "descend": 2, "updp": 0.3, "fimul": 0.3, "filshift": 0.3, "new_op": 0.3},
     "C05": {"populate": 8, "descend": 10, "ref": 3, "hw": 1, "get": 3, "setitem": 1, "clear": 0.3, "filshift": 0.5,
             "fimul": 0.5, "rotrav": 0.5, "new_op": 0.7},
-    "C10": dict(ALLMUT, get=2, getpos=1, rotrav=2, vr=10, ro=10, render=0.12),
+    "C10": dict(ALLMUT, get=2, getpos=1, rotrav=2, vr=10, ro=10, render=0.12, r0=0.5),
 }
 FOCUS = {
     "C01": {"ref", "setitem", "append", "populate", "descend"},
